@@ -42,6 +42,7 @@ namespace
       const int nb = s - mb; if(nb < 1 || nb > maxb) continue;
       if(!c.thorough && mb * nb > 6) continue;
       for(uint64_t bbits = 0; bbits < (uint64_t(1) << (mb * nb)); ++bbits)
+       for(int rep = 0; rep < (bbits == 0 ? 2 : 1); ++rep)   // empty pattern: entry-free BCSR(m,n) and allocated BCSR(m,n,0)
         for(const Variant& var : variants(mb * nb <= 6))
           for(int t = 0; t < 2; ++t)
             for(int combo = 0; combo < 5; ++combo)       // (r,x[,y]) types: 0 D,D[,D]  1 B,D[,B]  2 D,B[,D]  3 B,B[,B]  4 B,B,D (y-variant only)
@@ -55,9 +56,9 @@ namespace
                   ApplyCase op; op.transposed = (t == 1); op.mode = mode; op.alpha = al; op.alphabet = alphabet; op.scenario = var.scenario;
                   const DenseRef D = dense_from_blocks(mb, nb, BH, BW, bbits, alphabet);
                   static const char* cn[5] = {"r:dense x:dense", "r:blocked x:dense", "r:dense x:blocked", "r:blocked x:blocked", "r:blocked x:blocked y:dense"};
-                  const std::string kind = "bcsr<" + bs + ">" + (bbits == 0 ? "[entry-free]" : "") + " " + cn[combo];
-                  c.desc([&]{ return "bcsr<" + tp<DT, IT>() + "," + bs + "> blocks " + std::to_string(mb) + "x" + std::to_string(nb) + " blockpattern=" + std::to_string(bbits) + " scalar " + D.str() + " " + cn[combo] + " " + op.str(); });
-                  M A0 = build_bcsr<DT, IT, BH, BW>(D, mb, nb, bbits);
+                  const std::string kind = "bcsr<" + bs + ">" + (bbits == 0 ? (rep ? "[allocated-empty]" : "[entry-free]") : "") + " " + cn[combo];
+                  c.desc([&]{ return "bcsr<" + tp<DT, IT>() + "," + bs + "> blocks " + std::to_string(mb) + "x" + std::to_string(nb) + " blockpattern=" + std::to_string(bbits) + (bbits == 0 ? (rep ? " rep=allocated-empty" : " rep=entry-free") : "") + " scalar " + D.str() + " " + cn[combo] + " " + op.str(); });
+                  M A0 = build_bcsr<DT, IT, BH, BW>(D, mb, nb, bbits, rep);
                   const int dk = derive_kind(var.scenario);
                   M A = dk ? derive_matrix<M, SparseMatrixBCSR<DT, typename OtherIndex<IT>::type, BH, BW>>(A0, dk) : A0.clone(CloneMode::Shallow);
                   if(dk) c.count("derived_object_cases");
@@ -85,7 +86,7 @@ namespace
                   c.check(hash_of(A0) == h0, "bcsr source-of-derived-object modified", "the object the matrix was cloned/converted from changed");
                   tie();
                   const bool early = (bbits == 0) || (mode && fabsl(scalars[al].v) < 1e-10L);
-                  if(!early) c.nontrivial(verif::Hash().str("bcsr").str(tp<DT, IT>()).pod(BH).pod(BW).pod(mb).pod(nb).pod(bbits).pod(t).pod(combo).pod(mode).pod(al).pod(var).get());
+                  if(!early) c.nontrivial(verif::Hash().str("bcsr").str(tp<DT, IT>()).pod(BH).pod(BW).pod(mb).pod(nb).pod(bbits).pod(rep).pod(t).pod(combo).pod(mode).pod(al).pod(var).get());
                   c.outcome("bcsr/" + op.name() + " " + cn[combo] + (early ? " early-out" : ""));
                   c.count("applies");
                 }
@@ -162,6 +163,7 @@ int main(int argc, char** argv)
     "Banded (generic kernel): shapes {1..4}^2, all offset subsets, padding 0 / NaN; DenseMatrix shapes {1..4}^2; alpha in {0,1,-1,1/2,2,0.3,1e-20,-1e-20,1e-300}; 12 variants per pattern";
   spec.bounds_thorough = "BCSR block grids {1..3}x{1..3} (all 682 block patterns); Banded shapes {1..5}^2 (up to 512 offset subsets); DenseMatrix {1..5}^2";
   spec.assumptions = {
+    "coverage audit: SparseMatrixBanded::apply_transposed is checked to abort (not implemented in the generic back end) or to take the early-out; out of scope of C01: conversions/constructors from layouts or graphs, transpose, permute, set_line (C02), algebra (C03), I/O (C05), MKL/CUDA back ends", 
     "oracle: dense long double product written in the harness; operator()(i,j) of every generated container is compared with the generator",
     "exact / all-negative / extreme (denormal matrix entries, 2^1000 vector entries) alphabets compared with ==; rounding alphabet / non-dyadic alpha: |err| <= 8(len+2) eps (|A||x| max(1,|alpha|) + |y|)",
     "r pre-filled with NaN in the r!=y cases; banded padding entries (outside of the matrix) filled with 0 or NaN: they must never be read",
